@@ -32,7 +32,7 @@ TRUSTED = ["harness/c16_util.py: Python mirror of wf_scheme and the plain-"
            "Python einsum interpreter are used for shrinking / failing-input "
            "search only; the mirror is compared with the Coq result on every "
            "enumerated scheme",
-           "scheme digests (polynomial hash mod 2^61-1) are used to compare "
+           "scheme digests (multiplicative hash, 61 bits) are used to compare "
            "the full enumeration; the selected scheme, the groups and the "
            "unoptimised contraction are compared literally inside Coq"]
 ASSUMPTIONS = [
